@@ -7,6 +7,7 @@ Decided:
              capped at 2^24 - 1 bytes and divided by 8; declared constants equal the grammar's sums
   C11.frame  block framing: the writer flags a block last exactly when none follows, the reader stops on that flag,
              accepts a block only when its parser consumed exactly the declared size, and clamps reads to that size
+  C11.isrc   an ISRC parsed from text has exactly the 12 characters of its on-disk field; the validated, dash-stripped text is stored
   C11.len    every length / count prefix is the length of the very collection written after it, and the reader
              reads exactly that many items (ranges start at 0)
   C11.uniq   the reader and the writer enforce the same single-instance rules, each flag tested and set consistently
@@ -23,6 +24,11 @@ from panics import INT_BITS
 
 META = {"level": "other", "rule": "path grammars of reader/writer pairs; dataflow rules on size accounting; flag pairing in the uniqueness checks; truncating-cast lint; panic-site audit",
         "explanation": "Reader/writer agreement is decided structurally for all values at once; value equality is not decided."}
+
+
+def grammar_term(b, t):
+    import grammar
+    return grammar.term_of(b, t)
 
 
 def run(ctx, rep):
@@ -126,6 +132,38 @@ def run(ctx, rep):
                   "the per-block reader no longer clamps reads to the remaining block size: a block parser can run past its block")
     if not lr:
         rep.bad("C11.frame", "anchor:LimitedReader::read", "", "not found")
+
+    # ---- C11.isrc: an ISRC is exactly twelve characters (2 letters, 3 alphanumerics, 2 digits, 5 digits) ----------
+    ib = [x for x in F.bodies if x.promoted is None and x.path.startswith("<metadata::cuesheet::ISRCString as std::str::FromStr>::from_str")]
+    if not ib:
+        rep.bad("C11.isrc", "anchor:ISRCString::from_str", "src/metadata/cuesheet.rs", "not found")
+    else:
+        amts = []
+        eqs = []
+        stored = []
+        for x in ib:
+            for _, t in x.calls():
+                if callee_name(t).endswith("from_str::filter_split") and len(t["a"]) > 1 and op_int(t["a"][1]) is not None:
+                    amts.append(op_int(t["a"][1]))
+                if re.search(r"Cow::<'_, B>::into_owned$", callee_name(t)):
+                    stored.append("stripped")
+                if re.search(r"ToOwned>::to_owned$|::to_string$|String::from$", callee_name(t)) and x.kind == "Closure":
+                    stored.append("other")
+            if x.kind == "Closure":
+                eqs += [op_int(st_["rv"]["b"]) for bl in x.blocks for st_ in bl["s"] if st_["rv"]["r"] == "bin" and st_["rv"]["op"] == "Eq" and op_int(st_["rv"]["b"]) is not None and op_int(st_["rv"]["b"]) > 1]
+        field = None
+        for x in F.bodies:
+            if x.promoted is None and x.path == "<metadata::cuesheet::ISRC as bitstream_io::ToBitStream>::to_writer":
+                for _, t in x.calls():
+                    tm = grammar_term(x, t)
+                    if tm and tm[0] == "b":
+                        field = tm[1]
+        total = sum(amts) + (eqs[0] if len(eqs) == 1 else 0)
+        rep.check("C11.isrc", "ISRC text = 2 + 3 + 2 + 5 characters = the 12-byte field of the block", sorted(amts) == [2, 2, 3] and eqs == [5] and field == 96 and total * 8 == field, loc_of(ib[0]),
+                  "prefix lengths %s, designation length %s, field %s bits" % (amts, eqs, field),
+                  "ISRCString::from_str accepts codes whose length differs from the 12-byte field (prefix lengths %s, designation check %s): longer codes are truncated on write, shorter ones are refused by the reader" % (amts, eqs))
+        rep.check("C11.isrc", "the stored ISRC is the dash-stripped text that was validated", stored == ["stripped"], loc_of(ib[0]), str(stored),
+                  "ISRCString keeps a string other than the validated, dash-stripped one: dashes would be written into the 12-byte field")
 
     from rules import lenlib
     lenlib.length_prefix_rules(ctx, rep, "C11", floor_w=1, floor_r=1)
